@@ -2355,7 +2355,8 @@ func (mgr *Manager) GetView() View {
 }
 
 func (v *View) fetch() error {
-	if len(v.indexes) != 0 {
+	if v.tagDetails != nil {
+		// already fetched (a view of a service without index files has no indexes either)
 		return nil
 	}
 	v.tagDetails = make(map[string]query.TagDetails)
